@@ -306,6 +306,7 @@ def r05_4(ctx):
     from .c03 import assignment_conversion_checks
 
     assignment_conversion_checks(ctx)  # "with the C result converted to the target type": the operation type of every op=
+    signed_division_opcode(ctx)
     gm = get_grammar(ctx.env)
     from .c17 import term_literals
     lits = term_literals(gm, "ASSIGN_OP") or set()
@@ -487,3 +488,17 @@ def statement_operand_kind_independence(ctx):
 @rule("R05.11", "C05", "operand-kind independence of the statement callbacks", min_instances=10)
 def r05_11(ctx):
     statement_operand_kind_independence(ctx)
+
+
+def signed_division_opcode(ctx):
+    """`/` and `%` on operands whose common type is signed are the SIGNED operations (C11 6.5.5: the quotient truncates toward zero,
+    the remainder has the sign of the dividend); RzIL's DIV / MOD are the unsigned bitvector operations, SDIV / SMOD the signed ones"""
+    idx = get_index(ctx.env)
+    mem = members_by_value(idx, "ArithmeticType")
+    for op, (u, s_) in (("/", ("DIV", "SDIV")), ("%", ("MOD", "SMOD"))):
+        ctx.need(op in mem, f"ArithmeticType has no member spelled {op!r}")
+        for signed in (False, True):
+            fi, outs = run_il_exec(idx, "ArithmeticOp", lambda: {"arith_type": mem[op], "ops": [mk_pure("a", mk_vt("ta", signed, 32)), mk_pure("b", mk_vt("tb", signed, 32))]})
+            obs = " | ".join(sorted({normalise(outcome_text(o)) for o in outs}))
+            exp = f"{s_ if signed else u}(<a.il_read()>, <b.il_read()>)"
+            ctx.check(f"ArithmeticOp.il_exec[{op}, {'signed' if signed else 'unsigned'} operands]", obs == exp, exp, obs, fn_where(idx, fi))
